@@ -553,7 +553,8 @@ REGIME_CFG = {
     "resume": dict(profile="mailbox", over=dict(w_stop=0, w_crash=0),
                    cfgs=[dict(allow=True, usage=False, blur=0, snapshots=True), dict(allow=True, usage=True, blur=0, snapshots=True)]),
 }
-ALT_CFGS = [dict(allow=a, usage=u, blur=b) for a in (True, False) for u in (False, True) for b in (0, 3, 7)
+# (20 ticks = 20 minutes: a blur interval longer than the channel expiration time)
+ALT_CFGS = [dict(allow=a, usage=u, blur=b) for a in (True, False) for u in (False, True) for b in (0, 3, 7, 20)
             if not (a and not u and b == 0) and not (not u and b)]
 
 
